@@ -1552,6 +1552,7 @@ def _batch10() -> Dict[str, List[V]]:
         V("coverage-record-drops-the-more-general-bindings", CD, "SeenSet.add", "            self.seen.append(assignment)\n",
           "            self.seen = [c for c in self.seen if not all(k in assignment and assignment[k] == v for k, v in c.items())]\n            self.seen.append(assignment)\n",
           rule="COVERAGE-MONOTONE"),
+        V("twin-coverage-record-rebound-to-itself-plus-the-binding", CD, "SeenSet.add", "            self.seen.append(assignment)\n", "            self.seen = self.seen + [assignment]\n", kind="twin"),
         V("twin-coverage-record-drops-what-the-new-binding-subsumes", CD, "SeenSet.add", "            self.seen.append(assignment)\n",
           "            self.seen = [c for c in self.seen if not all(k in c and c[k] == v for k, v in assignment.items())]\n            self.seen.append(assignment)\n",
           kind="twin"),
@@ -1620,6 +1621,8 @@ def _batch10() -> Dict[str, List[V]]:
     trackers = [
         V("one-tracker-for-true-and-false-rows", S, "SymbolicExpression._is_duplicate_output_", "{True: SeenSet(), False: SeenSet()})", "dict.fromkeys((True, False), SeenSet()))",
           rule="DEDUP-TRACKERS-DISTINCT"),
+        V("twin-trackers-by-comprehension", S, "SymbolicExpression._is_duplicate_output_", "{True: SeenSet(), False: SeenSet()})", "{truth: SeenSet() for truth in (True, False)})",
+          kind="twin"),
     ]
     forall = [
         V("for-all-accumulates-the-uncompleted-row", S, "ForAll._evaluate__", "for k, v in complete_val.items() if k in self.condition_unique_variable_ids}",
